@@ -111,7 +111,17 @@ func gen(c *rig.Check, idx int, entry, temp string) spec {
 	issued := 0
 	planted := false
 	// first give every key a value, then overwrite / delete+rewrite
-	keyOf := func(i int) string { return fmt.Sprintf("k%d", i) }
+	// Half of the histories use unusual keys for their first records: the name the engine itself
+	// uses for its legacy metadata entry and a neighbour of it, a long key, keys with separator and
+	// glob characters. They are ordinary user keys and must survive a compaction like any other.
+	odd := []string{"__swamp_meta__", "__swamp_meta__x", "__swamp_meta_", strings.Repeat("K", 300), "a/b/c", "*", "k 1", ".hyd", "k0\tk1"}
+	oddKeys := r.IntN(2) == 0
+	keyOf := func(i int) string {
+		if oddKeys && i < len(odd) {
+			return odd[i]
+		}
+		return fmt.Sprintf("k%d", i)
+	}
 	next := 0
 	for issued < total {
 		n := 3 + r.IntN(12)
